@@ -6,11 +6,11 @@ Core Lean only.
 namespace LyModel.Diff
 open LyModel LyModel.Tree
 
-theorem foldlM_created (S : Schema) (fx : Fixes) (fuel : Nat) (hasym : KAsym S)
-    (ih : ∀ (c : DNode) (sibs : List DNode), wfNode S c = true → c.height ≤ fuel →
+theorem foldlM_created (S : Schema) (fx : Fixes) (fuel : Nat) (P : Key → Prop) (hasym : KAsymOn S P) (Q : DNode → Prop)
+    (ih : ∀ (c : DNode) (sibs : List DNode), wfNode S c = true → Q c → c.height ≤ fuel →
       applyNode S fx fuel sibs true (some .create) (dupRec c) = .ok (insertNode S sibs (createdNode c))) :
-    ∀ (cs cur : List DNode), (∀ c ∈ cs, wfNode S c = true ∧ c.height ≤ fuel) →
-      canonB S (cur ++ cs.map createdNode) = true → (∀ x ∈ cur, shapeOk S x = true) →
+    ∀ (cs cur : List DNode), (∀ c ∈ cs, wfNode S c = true ∧ c.height ≤ fuel ∧ P (kkey S c) ∧ Q c) →
+      canonB S (cur ++ cs.map createdNode) = true → (∀ x ∈ cur, shapeOk S x = true ∧ P (kkey S x)) →
       (cs.map dupRec).foldlM (fun ks c => applyNode S fx fuel ks true (some .create) c) cur
         = .ok (cur ++ cs.map createdNode)
   | [], cur, _, _, _ => by simp [List.foldlM, pure, Except.pure]
@@ -25,14 +25,16 @@ theorem foldlM_created (S : Schema) (fx : Fixes) (fuel : Nat) (hasym : KAsym S)
       apply insertNode_append
       intro x hx
       have hk := canonB_append_singleton S cur (createdNode c) hpre x hx
-      exact ⟨hk, klt_asymm S hasym x (createdNode c) (hs x hx) hshc hk⟩
-    simp only [List.map_cons, List.foldlM_cons, ih c cur hwc (hcs c (by simp)).2, happ]
-    have := foldlM_created S fx fuel hasym ih cs (cur ++ [createdNode c]) (fun x hx => hcs x (by simp [hx]))
+      exact ⟨hk, klt_asymm S P hasym x (createdNode c) (hs x hx).1 hshc (hs x hx).2
+        (by rw [createdNode_kkey]; exact (hcs c (by simp)).2.2.1) hk⟩
+    simp only [List.map_cons, List.foldlM_cons, ih c cur hwc (hcs c (by simp)).2.2.2 (hcs c (by simp)).2.1, happ]
+    have := foldlM_created S fx fuel P hasym Q ih cs (cur ++ [createdNode c]) (fun x hx => hcs x (by simp [hx]))
       (by simpa using hc) (by
         intro x hx
         rcases List.mem_append.1 hx with hx | hx
         · exact hs x hx
-        · simp only [List.mem_singleton] at hx; subst hx; exact hshc)
+        · simp only [List.mem_singleton] at hx; subst hx
+          exact ⟨hshc, by rw [createdNode_kkey]; exact (hcs c (by simp)).2.2.1⟩)
     simpa [bind, Except.bind] using this
 
 theorem ownOp_nometa (n : DNode) (h : n.metas = []) : ownOp n = none := by
@@ -46,12 +48,13 @@ theorem createdKey (k : DNode) (h : k.isTerm = true) :
 
 /-- **created subtrees**: a diff (sub)tree that is the copy of `b` with the effective operation create makes apply insert a
 node that is `b` up to `LYD_NEW` and container default flags (`createdNode b`) -/
-theorem apply_created (S : Schema) (fx : Fixes) (hasym : KAsym S) :
+theorem apply_created (S : Schema) (fx : Fixes) (U : DNode → Prop) (hUk : ∀ x, U x → ∀ c ∈ x.kids, U c)
+    (hasym : KAsymOn S (fun k => ∃ x, U x ∧ kkey S x = k)) :
     ∀ (fuel : Nat) (b : DNode) (metas : List Meta) (sibs : List DNode) (hp : Bool) (inh : Option Op),
-      wfNode S b = true → b.height ≤ fuel → effOp ((dupRec b).setMetas metas) inh = some .create →
+      wfNode S b = true → U b → b.height ≤ fuel → effOp ((dupRec b).setMetas metas) inh = some .create →
       applyNode S fx fuel sibs hp inh ((dupRec b).setMetas metas) = .ok (insertNode S sibs (createdNode b))
-  | 0, b, _, _, _, _, _, hh, _ => by have := height_pos b; omega
-  | fuel + 1, b, metas, sibs, hp, inh, hw, hh, heff => by
+  | 0, b, _, _, _, _, _, _, hh, _ => by have := height_pos b; omega
+  | fuel + 1, b, metas, sibs, hp, inh, hw, hUb, hh, heff => by
     have hnu : S.isUserOrd ((dupRec b).setMetas metas).sid = false := by
       rw [setMetas_sid, dupRec_sid]; exact plainSid_not_userOrd S b.sid (wfNode_plain S b hw)
     show applyStep S fx (applyNode S fx fuel) sibs hp inh ((dupRec b).setMetas metas) = _
@@ -68,10 +71,11 @@ theorem apply_created (S : Schema) (fx : Fixes) (hasym : KAsym S) :
       have hi := wfNode_inner S s f m ks hw
       have hsh : ∀ x ∈ ks, shapeOk S x = true := fun x hx => wfNode_shape S x (wfL_mem S ks x hi.kids hx)
       -- the recursion on the children
-      have ih : ∀ (c : DNode) (sibs : List DNode), wfNode S c = true → c.height ≤ fuel →
+      have hUkids : ∀ c ∈ ks, U c := fun c hc => hUk _ hUb c hc
+      have ih : ∀ (c : DNode) (sibs : List DNode), wfNode S c = true → U c → c.height ≤ fuel →
           applyNode S fx fuel sibs true (some .create) (dupRec c) = .ok (insertNode S sibs (createdNode c)) := by
-        intro c sibs' hwc hhc
-        have := apply_created S fx hasym fuel c [] sibs' true (some .create) hwc hhc
+        intro c sibs' hwc hUc hhc
+        have := apply_created S fx U hUk hasym fuel c [] sibs' true (some .create) hwc hUc hhc
           (by simp [effOp, ownOp_nometa _ (setMetas_metas [] (dupRec c))])
         rwa [setMetas_self _ (dupRec_metas c)] at this
       have hkids : ((dupRec (.inner s f m ks)).setMetas metas).kids = ks.map dupRec := by
@@ -84,11 +88,11 @@ theorem apply_created (S : Schema) (fx : Fixes) (hasym : KAsym S) :
         apply List.map_congr_left
         intro k hk
         exact createdKey k (hi.keysTerm k hk)
-      have hfold := foldlM_created S fx fuel hasym ih (noKeys S ks) ((keysOf S ks).map createdNode)
+      have hfold := foldlM_created S fx fuel _ hasym U ih (noKeys S ks) ((keysOf S ks).map createdNode)
         (by
           intro c hc
           have hck : c ∈ ks := (noKeys_sublist S ks).subset hc
-          refine ⟨wfL_mem S ks c hi.kids hck, ?_⟩
+          refine ⟨wfL_mem S ks c hi.kids hck, ?_, ⟨c, hUkids c hck, rfl⟩, hUkids c hck⟩
           have h1 := heightL_mem ks c hck
           simp only [DNode.height] at hh
           omega)
@@ -98,7 +102,8 @@ theorem apply_created (S : Schema) (fx : Fixes) (hasym : KAsym S) :
         (by
           intro x hx
           obtain ⟨y, hy, rfl⟩ := List.mem_map.1 hx
-          exact createdNode_shape S y (hsh y ((List.takeWhile_sublist _).subset hy)))
+          have hyk : y ∈ ks := (List.takeWhile_sublist _).subset hy
+          exact ⟨createdNode_shape S y (hsh y hyk), ⟨y, hUkids y hyk, (createdNode_kkey S y).symm⟩⟩)
       rw [hkids, dropWhile_map_sid S dupRec dupRec_sid, hcur, hfold]
       simp only [bind, Except.bind, ← List.map_append, keys_append_noKeys]
       simp [dupRec, DNode.setMetas, dupSingle, DNode.setKids, createdNode, createdL_eq_map]
